@@ -445,6 +445,7 @@ Definition step7_node (b : node) : rl :=
 
 Lemma paint_unfold i kids z neg zero pos blocks floats bac :
   paint (Ctx i kids z neg zero pos blocks floats bac) =
+    if singular i then Ok [] else
     let id := bid i in
     let k := bkind i in
     let opac := bopac i in
@@ -467,6 +468,9 @@ Lemma paint_unfold i kids z neg zero pos blocks floats bac :
             (if trans then [Pop ETransform id] else []) ++
             (if opac then [Pop EOpacity id] else [])).
 Proof. reflexivity. Qed.
+
+Lemma singular_css i : css_not_displayed i = singular i.
+Proof. unfold css_not_displayed, singular, css_transformable. destruct (bkind i); reflexivity. Qed.
 
 Lemma dil_box_unfold i kids :
   draw_inline_level (NBox i kids) =
@@ -843,10 +847,13 @@ Section Main.
     { simpl. f_equal. apply outlines_spec. }
     (* assemble *)
     unfold ctx_explicit, new_context. rewrite HH. change (binfo_of b) with i. change (children b) with cs.
-    rewrite paint_unfold. cbv zeta.
+    rewrite paint_unfold.
+    destruct (singular i) eqn:Es.
+    { cbn [spec_ctx]. cbv zeta. change (binfo_of b) with i. rewrite singular_css, Es. reflexivity. }
+    cbv zeta.
     rewrite E3, E4, E5, E6, E7a, E7b, E8, E9, E10. rewrite !app2_ok. f_equal.
     rewrite assemble.
-    cbn [spec_ctx]. cbv zeta. change (binfo_of b) with i. fold atomic. fold sub.
+    cbn [spec_ctx]. cbv zeta. change (binfo_of b) with i. rewrite singular_css, Es. fold atomic. fold sub.
     change (if negb sh then hoisted impl_forms_ctx b else []) with H.
     replace (css_paints_box_decoration (bkind i)) with (point2 (bkind i)) by (destruct (bkind i); reflexivity).
     replace (css_transformable (bkind i)) with (negb (is_inline (bkind i))) by (destruct (bkind i); reflexivity).
@@ -890,7 +897,8 @@ Section Main.
         by (intros a Ha; apply Hz; auto).
       apply seqM_map_ok. intros a Ha. apply Hp. apply Hl.
       apply (isort_in (fun b : box => css_level (binfo_of b)) l a). exact Ha. }
-    rewrite paint_unfold. cbv zeta. rewrite Hk, Ho, Ht. simpl point2. simpl is_inline. simpl is_page.
+    rewrite paint_unfold. unfold singular. rewrite Ht. cbn [andb].
+    cbv zeta. rewrite Hk, Ho. simpl point2. simpl is_inline. simpl is_page.
     rewrite andb_false_r. cbn [andb].
     rewrite !filter_map_comm.
     rewrite (filter_ext_in' (fun a => (ctx_z (from_box a) <? 0)%Z) (fun d => (blevel d <? 0)%Z) roots)
@@ -1138,7 +1146,7 @@ Section SpecProps.
   Theorem spec_ctx_paired n : forall real b, paired (SP n real b).
   Proof.
     induction n as [|n IH]; intros real b; [constructor|].
-    cbn [spec_ctx]. cbv zeta.
+    cbn [spec_ctx]. cbv zeta. destruct (css_not_displayed _); [constructor|].
     apply paired_wrap. apply paired_wrap. apply paired_app; [|apply paired_app].
     - destruct (css_paints_box_decoration _); [apply paired_bb|]; constructor.
     - apply paired_wrap.
@@ -1156,7 +1164,7 @@ Section SpecProps.
   Theorem spec_ctx_balanced n : forall real b, balanced (SP n real b).
   Proof.
     induction n as [|n IH]; intros real b; [reflexivity|].
-    cbn [spec_ctx]. cbv zeta.
+    cbn [spec_ctx]. cbv zeta. destruct (css_not_displayed _); [reflexivity|].
     apply balanced_wrap. apply balanced_wrap. apply balanced_app; [|apply balanced_app].
     - destruct (css_paints_box_decoration _); reflexivity.
     - apply balanced_wrap.
@@ -1299,7 +1307,7 @@ Section SpecInd.
   Theorem spec_ctx_Q n : forall real b, Q b (SP n real b).
   Proof.
     induction n as [|n IH]; intros real b; [apply Q_nil|].
-    cbn [spec_ctx]. cbv zeta.
+    cbn [spec_ctx]. cbv zeta. destruct (css_not_displayed _); [apply Q_nil|].
     assert (HH : forall d, In d (if real then hoisted forms_ctx b else []) -> In d (subs b)).
     { intros d Hd. destruct real; [apply (hoisted_subs_gen forms_ctx); exact Hd|destruct Hd]. }
     assert (Hsub : forall (l : list box) (r : box -> bool), (forall d, In d l -> In d (subs b)) ->
@@ -1434,6 +1442,7 @@ Qed.
    background and border, then all its content, then its outline first among
    the outlines of step 10 *)
 Lemma spec_ctx_root_shape forms_ctx level zsort n real b :
+  css_not_displayed (binfo_of b) = false ->
   exists content outlines,
     spec_ctx forms_ctx level zsort (S n) real b =
       wrap EOpacity (bopac (binfo_of b)) (bid (binfo_of b))
@@ -1443,8 +1452,8 @@ Lemma spec_ctx_root_shape forms_ctx level zsort n real b :
             ++ wrap EClip (bclip (binfo_of b) && negb (is_page (bkind (binfo_of b)))) (bid (binfo_of b)) content
             ++ Outline (bid (binfo_of b)) :: outlines)).
 Proof.
-  destruct b as [i cs]. cbn [spec_ctx]. cbv zeta. cbn [flow_all map binfo_of].
-  eexists. eexists. reflexivity.
+  destruct b as [i cs]. cbn [binfo_of]. intros Hs. cbn [spec_ctx]. cbv zeta. cbn [flow_all map binfo_of].
+  rewrite Hs. eexists. eexists. reflexivity.
 Qed.
 
 (* ------------------------------------------------------------------ territories: every box belongs to exactly one context *)
